@@ -1499,3 +1499,14 @@ def _f_is_true(ex, f, args, kwargs, node):
 @meth("Form", "is_false", tb="TB-fml")
 def _f_is_false(ex, f, args, kwargs, node):
     return VBool(f.t == L.f_false)
+
+
+@fn("builtins.range", tb="TB-py")
+def _range(ex, args, kwargs, node):
+    """range(n) / range(a, b) as a sequence: length max(b - a, 0), element i is a + i"""
+    if kwargs or not args or len(args) > 2 or not all(isinstance(a, VInt) for a in args):
+        raise Unsupported("range() of this shape")
+    lo = z3.IntVal(0) if len(args) == 1 else args[0].t
+    hi = args[-1].t
+    n = z3.If(hi - lo >= 0, hi - lo, 0)
+    return VSeq(z3.simplify(n), lambda i: VInt(z3.simplify(lo + i)))
